@@ -15,6 +15,9 @@ for d in sorted(glob.glob(V+'/seeded/*/')):
         runs.append(f"{c} {tier}: {'caught ('+str(v)+' VIOLATION lines)' if v else 'not caught'}")
     title=(m.get('title') or m.get('mechanism') or '')[:150].replace('|','/')
     files=', '.join(m.get('files',[]))[:80]
-    rows.append(f"| {name} | {title} | {files} | {'; '.join(runs) or 'not run'} |")
+    note=m.get('status_note','')
+    res='; '.join(runs) or 'not run'
+    if note: res=(res+' — ' if runs else '')+note
+    rows.append(f"| {name} | {title} | {files} | {res} |")
 print("| seeded change | what it breaks | files | checks run against it |\n|---|---|---|---|")
 print("\n".join(rows))
